@@ -31,7 +31,13 @@ cp $OUT/$L.diff $D/patch.diff
 cp $OUT/${L}_demo_test.go $D/demo_test.go
 # run the check in /repo
 git -C /repo apply $D/patch.diff || { echo "patch does not apply to /repo"; exit 2; }
-res=$(cd /verif && RTV_OUT_DIR=/tmp/seedcheck bin/rtv check --property $P --tier quick 2>&1 | grep -E "^(VIOLATION|KNOWN|C[0-9]+:)" | cut -c1-300)
+PROPS="${4:-$P}"
+res=""
+for Q in $PROPS; do
+  r=$(cd /verif && RTV_OUT_DIR=/tmp/seedcheck bin/rtv check --property $Q --tier quick 2>&1 | grep -E "^(VIOLATION|KNOWN|C[0-9]+:)" | cut -c1-300)
+  res="$res
+$r"
+done
 git -C /repo checkout -- .
 echo "check: $res"
 python3 - "$P" "$L" "$suite_nodemo" "$demo_clean" "$demo_mut" "$res" "${3:-}" <<'PY'
